@@ -126,8 +126,33 @@ def safe_run_case(mod, case):
     return res
 
 
+_COVER = os.environ.get("VERIF_COVER")
+_cover_lines = set()
+
+
+def _cover_start():
+    """Diagnostic only (VERIF_COVER=1): which lines of rnapolis does this check execute? Never decides anything."""
+    mon = sys.monitoring
+    tool = mon.COVERAGE_ID
+    try:
+        mon.use_tool_id(tool, "verif-cover")
+    except ValueError:
+        pass
+
+    def on_line(code, line):
+        fn = code.co_filename
+        if "/rnapolis/" in fn:
+            _cover_lines.add((os.path.basename(fn), line))
+        return mon.DISABLE
+
+    mon.register_callback(tool, mon.events.LINE, on_line)
+    mon.set_events(tool, mon.events.LINE)
+
+
 def _worker(args):
     wid, nw, pid, tier, seed = args
+    if _COVER:
+        _cover_start()
     mod = load_module(pid)
     st = dict(
         evaluations=0,
@@ -186,6 +211,8 @@ def _worker(args):
         st["error"] = traceback.format_exc()
     st["nontrivial"] = list(st["nontrivial"])
     st["wall"] = time.time() - t0
+    if _COVER:
+        st["cover"] = sorted(_cover_lines)
     return st
 
 
@@ -216,6 +243,14 @@ def run_check(pid, tier, seed):
     if errors:
         sys.stderr.write("ENGINE ERROR in %s:\n%s\n" % (pid, errors[0]))
         return 2
+
+    if _COVER:
+        cov_lines = set()
+        for p in parts:
+            cov_lines.update(tuple(x) for x in p.get("cover", []))
+        os.makedirs(os.path.join(REPLAY_DIR, "coverage"), exist_ok=True)
+        with open(os.path.join(REPLAY_DIR, "coverage", "%s-%s.json" % (pid, tier)), "w") as f:
+            json.dump(sorted(cov_lines), f)
 
     evaluations = sum(p["evaluations"] for p in parts)
     nontrivial = set()
